@@ -5,9 +5,8 @@ from props import gen_props
 
 def run(ctx):
     from props import gen_unbounded
-    gen_unbounded.run_facilities(ctx)  # both origins, any shell name
-    only = os.environ.get('PYVC_SHAPES')
-    gen_props.run_property(ctx, 'C09', only.split(',') if only else None)
+    # the composition on the shape corpus, then the unbounded function contracts (DESIGN.md 8.6)
+    gen_unbounded.run_with_composition(ctx, 'C09', [('facilities', gen_unbounded.run_facilities)])
 
 
 def make_replay(ctx, o):
